@@ -7,7 +7,7 @@ VC = ("contract-based deductive verification: verification conditions generated 
 
 PROPS = {
     "C20": {
-        "standins": ["malformed"],
+        "standins": ["malformed", "udp"],
         "units": [x690_c20.units, wire_community.units_rx, wire_community.units_c19, wire_v3.units_rx, wire_v3.units_emit, udp.units], "level": "other", "design_ref": "7.20",
         "technique": VC + "x690 get_value_slice / decode / Sequence.decode_raw verified FROM THE SITE-PACKAGES SOURCE on an arbitrary byte "
                      "array (progress contracts, loop variant); static obligations over the receive path's ASTs (acyclic call graph, no "
